@@ -255,6 +255,53 @@ def run(tier, seed, replay=None):
                              'features': sorted(feats), 'what': 'Constant.value is not the value the literal text denotes'})
                 if len(R.violations) > 6:
                     break
+    # ---------------- double-quoted literals (implementation against the denotation written below; runs whatever the state of
+    # the translators): inside "..." a single quote is an ordinary character, \" \' \\ are escapes, "" is one double quote
+    if not replay or 'dq_lexeme' in rp:
+        alpha = ["'", '\\', 'a', '"', 'n']
+        dqs = ['"' + ''.join(tup) + '"' for n in range(0, (5 if tier == 'quick' else 7)) for tup in itertools.product(alpha, repeat=n)]
+        dqs += ['"' + ''.join(rng.choice(alpha + [' ', 'é', "''", '%', '\n']) for _ in range(rng.randint(1, 9))) + '"' for _ in range(300)]
+        if replay:
+            dqs = [rp['dq_lexeme']]
+        ndq = 0
+        reported_dq = set()
+        for d in DIALECTS:
+            for lx in dqs:
+                try:
+                    a = parse_sql('select ' + lx, d)
+                    t = a.targets[0]
+                    got = t.value if (len(a.targets) == 1 and type(t) is Constant and t.alias is None and isinstance(t.value, str)) else None
+                except Exception:
+                    got = None
+                want = _py_denote_dq(lx, True) if d == 'mindsdb' else (lx[1:-1] if '"' not in lx[1:-1] else None)
+                ndq += 1
+                if got == want:
+                    continue
+                # which listed defect shows this symptom
+                sym = None
+                if got is not None and want is None:
+                    sym = 'undenotable'
+                elif got is None and want is not None and '""' in lx[1:-1]:
+                    sym = 'doubled_dquote'
+                elif got is not None and d == 'mindsdb':
+                    keep = _py_denote_dq(lx, False)
+                    if keep is not None and got == keep and keep != want:
+                        sym = 'escaped_backslash'
+                    elif got in {b.strip('"') for b in (want, keep) if b is not None}:
+                        sym = 'edge_quote'
+                    elif '\\\\' in lx and got == lx.replace('\\"', '"').replace("\\'", "'").strip('"'):
+                        # an escaped backslash in front of a quote: the listed defect (the pair is not decoded, so its second
+                        # half escapes the quote)
+                        sym = 'escaped_backslash'
+                fd = [f for f in findings if f['classifier'].get('kind') in ('decode', 'decode_dq') and sym in f['classifier']['any_feature']] if sym else []
+                if fd:
+                    R.known_finding(f'{fd[0]["id"]}: {fd[0]["what"]}')
+                elif (d, sym) not in reported_dq and len(reported_dq) < 4:
+                    reported_dq.add((d, sym))
+                    R.violation({'dialect': d, 'dq_lexeme': lx, 'implementation_value': got, 'denoted_value': want, 'symptom': sym,
+                                 'what': 'the value of a double-quoted literal is not the value its text denotes'})
+        evaluations += ndq
+        stats['double_quoted_literals'] = ndq
     # ---------------- print then parse (the "conversely" direction), mindsdb dialect
     if 'mindsdb' in chains and not replay:
         vals = value_cases(rng, tier)
@@ -351,6 +398,35 @@ def run(tier, seed, replay=None):
     R.cov['samples'] = [{'lexeme': "''''", 'dialect': 'mindsdb'}, {'value': "it's"}]
     R.notes['input_distribution'] = stats
     return R.finish()
+
+
+def _py_denote_dq(lex, decode_backslash_pair):
+    """what a double-quoted literal denotes; with decode_backslash_pair=False the pair \\\\ is left as it is (the listed defect)"""
+    s = lex
+    if len(s) < 2 or not s.startswith('"'):
+        return None
+    i, out = 1, []
+    while i < len(s):
+        c = s[i]
+        if c == '\\':
+            if i + 1 >= len(s):
+                return None
+            d = s[i + 1]
+            if d == '\\' and not decode_backslash_pair:
+                out.append(c + d)
+            else:
+                out.append(d if d in "'\"\\" else c + d)
+            i += 2
+        elif c == '"':
+            if i + 1 < len(s) and s[i + 1] == '"':
+                out.append('"')
+                i += 2
+            else:
+                return ''.join(out) if i + 1 == len(s) else None
+        else:
+            out.append(c)
+            i += 1
+    return None
 
 
 def _py_denote(lex):
